@@ -149,7 +149,10 @@ def routesHandler : Handler
       | none => some "excluded:ill-formed-input"
       | some db =>
         (Scope.c03 g db db ss ss).orElse fun _ =>
-          if g.dialect == .sqlite then some "sqlite-reader-vocabulary"
+          -- the primary key has two representations (column option / `primary_key` index): a single-column key written
+          -- inline on one side and as a table-level constraint on the other is reported as changed (recorded finding)
+          if (r1 == "table-level-pk") != (r2 == "table-level-pk") && db.any (fun t => t.pk.length == 1) then some "pk-inline-vs-table-level"
+          else if g.dialect == .sqlite then some "sqlite-reader-vocabulary"
           else if g.dialect == .postgres && !(Scope.pgFragment "" ss) then some "postgres-reader-vocabulary"
           else if g.dialect == .postgres && (r1 == "canonical" || r2 == "canonical") then some "postgres-reader-vocabulary"
           else if g.dialect == .postgres && (r1 == "own-dump" || r2 == "own-dump") then some "postgres-migrations-not-rereadable"
